@@ -20,7 +20,7 @@ type consPlan struct {
 
 func drawConsPlan(maxOps int) consPlan {
 	p := consPlan{startPause: drawPause(), closeEnd: simrt.Chance(1, 3)}
-	n := simrt.DrawRange(1, maxOps)
+	n := simrt.DrawRange(1, maxOps*simrt.Scale())
 	for i := 0; i < n; i++ {
 		var op int
 		switch x := simrt.Draw(12); {
@@ -110,7 +110,7 @@ func c01Run(trim bool) {
 			return
 		}
 	}
-	nCons := simrt.DrawRange(0, 4)
+	nCons := simrt.DrawRange(0, 4+2*(simrt.Scale()-1))
 	plans := make([]consPlan, nCons)
 	for i := range plans {
 		plans[i] = drawConsPlan(10)
